@@ -15,6 +15,9 @@ pub(crate) mod vhash;
 pub(crate) mod vonce;
 #[path = "common.rs"]
 pub(crate) mod common;
+#[cfg(amv_tsig)]
+#[path = "tsig.rs"]
+pub(crate) mod tsig;
 
 // ---- non-deterministic inputs: symbolic under Kani, popped from the replay file natively -------------
 #[cfg(kani)]
